@@ -15,6 +15,7 @@ func init() {
 		for _, b := range []string{drv.BBolt, drv.Badger} {
 			eng.RangeSweep(run, b, max)
 			eng.RangeSweepByteCorners(run, b, max-1)
+			eng.RangeNameLengthSweep(run, b, map[string]int{"quick": 80, "thorough": 300}[tier])
 		}
 		eng.RangeAlgebra(run)
 		run.Set("distinct_nontrivial", run.DistinctCount("contents")+run.DistinctCount("range_pairs"))
@@ -35,6 +36,8 @@ func init() {
 		for _, b := range []string{drv.BBolt, drv.Badger} {
 			eng.CursorSweep(run, b, true)
 		}
+		// every collection-name length (key buffers of every size) on both backends against the common reference
+		eng.NameLengthSweep(run, []string{drv.BBolt, drv.Badger}, map[string]int{"quick": 1200, "thorough": 2500}[tier], own("state", "apply", "err", "rawkeys", "count", "indexquery", "id", "catalog-coll", "catalog-index"))
 		// multi-page collections: every bulk operation at every size must give the reference result on both backends
 		eng.BulkSweep(&eng.BulkConfig{Backends: []string{drv.BBolt, drv.Badger}, Sizes: sizesUpTo(map[string]int{"quick": 64, "thorough": 300}[tier]), Pads: []int{0}, IndexSets: [][]string{{"x", "xy"}}, Ops: eng.BulkOps()},
 			run, own("state", "callback", "apply", "err", "bulk-error", "rawkeys", "count", "indexquery"))
